@@ -1,12 +1,12 @@
 SPECIFICATION Spec
 CONSTANTS
-  MaxEv = 5
-  MaxSeg = 5
+  MaxEv = 3
+  MaxSeg = 4
   MaxCA = 3
   MaxK = 2
   M = 4
   Eager = TRUE
-  AppLimited = FALSE
+  AppLimited = TRUE
   Tier = "reno"
   N <- RN
   Plus <- RPlus
